@@ -31,15 +31,15 @@ ENV = """
     }
     impl From<Arguments> for Variables { fn from(a: Arguments) -> Self { Variables { id: a.id, applied: 0 } } }
     pub type ScopeName = u8;
-    /// `Vec` with the part of its interface `Context` uses, backed by an array of 6 slots (the heap vectors of std made the
+    /// `Vec` with the part of its interface `Context` uses, backed by an array of 5 slots (the heap vectors of std made the
     /// encoding of a 4-step history run out of memory at 30 GB); shadows the prelude's Vec inside this module
     #[derive(Debug)]
-    pub struct Vec<T> { pub slots: [Option<T>; 6], pub n: usize }
+    pub struct Vec<T> { pub slots: [Option<T>; 5], pub n: usize }
     impl<T> Vec<T> {
-        pub fn new() -> Self { Vec { slots: [const { None }; 6], n: 0 } }
+        pub fn new() -> Self { Vec { slots: [const { None }; 5], n: 0 } }
         pub fn len(&self) -> usize { self.n }
         pub fn is_empty(&self) -> bool { self.n == 0 }
-        pub fn push(&mut self, v: T) { assert!(self.n < 6); self.slots[self.n] = Some(v); self.n += 1; }
+        pub fn push(&mut self, v: T) { assert!(self.n < 5); self.slots[self.n] = Some(v); self.n += 1; }
         pub fn pop(&mut self) -> Option<T> { if self.n == 0 { None } else { self.n -= 1; self.slots[self.n].take() } }
         pub fn get(&self, i: usize) -> Option<&T> { if i < self.n { self.slots[i].as_ref() } else { None } }
         pub fn get_mut(&mut self, i: usize) -> Option<&mut T> { if i < self.n { self.slots[i].as_mut() } else { None } }
@@ -65,7 +65,7 @@ ENV = """
             v.unwrap()
         }
         pub fn insert(&mut self, i: usize, v: T) {
-            assert!(i <= self.n && self.n < 6);
+            assert!(i <= self.n && self.n < 5);
             let mut j = self.n;
             while j > i { self.slots[j] = self.slots[j - 1].take(); j -= 1; }
             self.slots[i] = Some(v);
@@ -131,8 +131,8 @@ IND = """
     /// what the harness remembers of the pre-state
     pub struct VkPre {
         pub nb: usize, pub ns: usize,
-        pub block_id: [u32; 6], pub block_static: [bool; 6],
-        pub state_block: [usize; 6], pub state_args: [bool; 6],
+        pub block_id: [u32; 5], pub block_static: [bool; 5],
+        pub state_block: [usize; 5], pub state_args: [bool; 5],
         pub has_name: [bool; 2], pub name_block: [usize; 2],
     }
 
@@ -141,7 +141,7 @@ IND = """
         let nb: usize = kani::any();
         let ns: usize = kani::any();
         kani::assume(nb >= 1 && nb <= VK_MAXB && ns >= 1 && ns <= VK_MAXS);
-        let mut p = VkPre { nb, ns, block_id: [0; 6], block_static: [false; 6], state_block: [0; 6], state_args: [false; 6],
+        let mut p = VkPre { nb, ns, block_id: [0; 5], block_static: [false; 5], state_block: [0; 5], state_args: [false; 5],
                             has_name: [false; 2], name_block: [0; 2] };
         let mut blocks: Vec<MemoryBlock> = Vec::new();
         let mut k = 0usize;
@@ -151,7 +151,7 @@ IND = """
                 let rc: usize = kani::any();
                 let st: bool = kani::any();
                 let applied: u32 = kani::any();
-                kani::assume(rc >= 1 && rc <= 6 && applied < 1000);
+                kani::assume(rc >= 1 && rc <= 5 && applied < 1000);
                 if k == 0 { kani::assume(id == 0 && !st); } else { kani::assume(id >= 1 && id < 1000); }
                 // identities are distinct
                 let mut m = 0usize;
@@ -198,13 +198,13 @@ IND = """
     pub fn vk_invariant(c: &Context) -> bool {
         let nb = c.memory_blocks.len();
         let ns = c.states.len();
-        if nb < 1 || ns < 1 || nb > 6 || ns > 6 { return false; }
+        if nb < 1 || ns < 1 || nb > 5 || ns > 5 { return false; }
         if c.states[0].memory_block_index != 0 || c.states[0].arguments.is_some() { return false; }
         if c.memory_blocks[0].is_static { return false; }
         let mut ok = true;
         // every state refers to an existing block; an argument list is evaluated in the block of the state below it
         let mut j = 0usize;
-        while j < 6 {
+        while j < 5 {
             if j < ns {
                 let b = c.states[j].memory_block_index;
                 if b >= nb { return false; }
@@ -220,11 +220,11 @@ IND = """
         // reference counts: a local block is counted exactly and lives only while referenced; a STATIC block keeps one
         // extra count once its first activation has ended
         let mut k = 0usize;
-        while k < 6 {
+        while k < 5 {
             if k < nb {
                 let mut refs = 0usize;
                 let mut j = 0usize;
-                while j < 6 { if j < ns && c.states[j].memory_block_index == k { refs += 1; } j += 1; }
+                while j < 5 { if j < ns && c.states[j].memory_block_index == k { refs += 1; } j += 1; }
                 let rc = c.memory_blocks[k].ref_count;
                 if c.memory_blocks[k].is_static {
                     if !(rc >= 1 && (rc == refs || rc == refs + 1)) { ok = false; }
@@ -245,7 +245,7 @@ IND = """
         if let (Some(a), Some(b)) = (c.static_memory_blocks.get(&0), c.static_memory_blocks.get(&1)) { if *a == *b { ok = false; } }
         let mut statics = 0usize;
         let mut k = 0usize;
-        while k < 6 { if k < nb && c.memory_blocks[k].is_static { statics += 1; } k += 1; }
+        while k < 5 { if k < nb && c.memory_blocks[k].is_static { statics += 1; } k += 1; }
         if statics != named { ok = false; }
         ok
     }
@@ -254,7 +254,7 @@ IND = """
     /// subprogram still owns the variables it owned before
     pub fn vk_frame(c: &Context, p: &VkPre, kept_states: usize) {
         let mut j = 0usize;
-        while j < 6 {
+        while j < 5 {
             if j < kept_states {
                 let b = c.states[j].memory_block_index;
                 assert!(c.memory_blocks[b].variables.id == p.block_id[p.state_block[j]]);
@@ -384,7 +384,7 @@ def spec(tier, seed):
     if slice_error is None:
         for op, (body, pre) in STEPS.items():
             b.add(ctx, "vk_c03_step_" + op, body + (STEP_POST if op != "new" else "        std::mem::forget(c);\n"),
-                  unwind=8, tier="quick", cost=100, timeout=1500, mem_gb=12,
+                  unwind=7, tier="quick", cost=100, timeout=1500, mem_gb=12,
                   # the handler push unrolls `while top is an argument list { do_pop }` to the unwinding bound: 300 s / < 8 GB on an idle
                   # machine, out of memory at 12 GB on a loaded one - listed as undecided then, not a core instance
                   core=(op != "push_error_handler_context"),
@@ -400,7 +400,7 @@ def spec(tier, seed):
         outside="by-reference write-back, function results, parameter conversion, SHARED/CONST resolution, what the variable tables contain "
                 "(Variables, Arguments, Vec and the hash map are stand-ins); that the generator emits the call protocol the steps model; "
                 "states deeper than the bound",
-        stubs=["Variables / Arguments -> identity tokens; std Vec -> array-backed vector of 6 slots with the same push/pop/remove/index semantics; "
+        stubs=["Variables / Arguments -> identity tokens; std Vec -> array-backed vector of 5 slots with the same push/pop/remove/index semantics; "
                "std HashMap -> association list; ScopeName -> u8 (the sliced text of Context, State and MemoryBlock is compiled against them unchanged)"],
         assumptions=["pre-states satisfy the representation invariant vk_invariant (reference counts, block order, STATIC name map); "
                      "PushStack/PushStaticStack only on a pending argument list, PopStack only on an activation"],
